@@ -1,4 +1,5 @@
 import TD.C07.To68
+import TD.C07.Canon68
 import TD.C07.Rp66
 import Mathlib.Algebra.Order.Field.Rat
 import Mathlib.Algebra.Order.Field.Power
